@@ -176,7 +176,13 @@ fn case_sample(f: &AbsFont, d: &Def, offered: usize, of_all: usize) -> serde_jso
 
 fn random_item(ctx: &mut Ctx, item: usize) {
     let mut rng = Rng::derive(ctx.seed, "c19-rand", item as u64);
-    let case = gen::gen_case(&mut rng);
+    // every fourth item: two format-2 tables sharing template and ids (duplicate URIs across the tables)
+    let case = if item % 4 == 3 {
+        ctx.count("case:duelling-tables(shared template+ids)", 1);
+        gen::gen_duel_case(&mut rng)
+    } else {
+        gen::gen_case(&mut rng)
+    };
     let font = &case.font;
     let bytes = font.build();
     let prep = prepare(font);
